@@ -41,6 +41,8 @@ Ident == Mk(LAMBDA l, i, j : IF i = j THEN ROne ELSE RZero)
 Scalar == <<2, 1>>                                          \* the scalar operand
 Vec    == [l \in Li |-> <<l + 1, 2>>]                       \* the (L,1,1) array operand
 Arr    == Mk(LAMBDA l, i, j : <<i + 2 * j + l, 1>>)         \* the (L,R,R) array operand
+Row    == [j \in Ri |-> <<j + 2, 3>>]                       \* a (R,) array: numpy broadcasts it over the COLUMNS of every matrix
+Mat    == [i \in Ri |-> [j \in Ri |-> <<2 * i + j, 2>>]]    \* a (R,R) array: the same matrix combined with every matrix
 
 Op(op, a, b) == CASE op = "add" -> RAdd(a, b)
                   [] op = "sub" -> RSub(a, b)
@@ -53,6 +55,8 @@ Elementwise(op, a, kind, b) ==
                            CASE kind = "ma"     -> b[l][i][j]
                              [] kind = "scalar" -> Scalar
                              [] kind = "vec"    -> Vec[l]
+                             [] kind = "row"    -> Row[j]
+                             [] kind = "mat"    -> Mat[i][j]
                              [] kind = "arr"    -> Arr[l][i][j]))
 
 RECURSIVE DotSum(_, _, _, _, _, _)
@@ -69,7 +73,8 @@ Inv(a) == Mk(LAMBDA l, i, j :
 Invertible(a) == \A l \in Li : Det(a[l]) # RZero
 NonZero(kind, b) == \A l \in Li, i, j \in Ri :
                        (CASE kind = "ma" -> b[l][i][j] [] kind = "scalar" -> Scalar
-                          [] kind = "vec" -> Vec[l] [] kind = "arr" -> Arr[l][i][j]) # RZero
+                          [] kind = "vec" -> Vec[l] [] kind = "row" -> Row[j] [] kind = "mat" -> Mat[i][j]
+                          [] kind = "arr" -> Arr[l][i][j]) # RZero
 Small(a) == \A l \in Li, i, j \in Ri : Abs(a[l][i][j][1]) < 20000 /\ a[l][i][j][2] < 20000
 
 \* ---------------------------------------------------------------- objects and buffers
@@ -187,6 +192,7 @@ InitWith(sx, sy, ykind) ==
 
 Ops   == {"add", "sub", "mul", "div"}
 Kinds == {"scalar", "vec", "arr"}
+MoreKinds == {"row", "mat"}          \* arrays that broadcast over the matrix axes instead of the length axis
 
 ValueNext ==
     \/ \E op \in Ops, n \in Names, m \in Names, ip \in BOOLEAN : Bin(op, n, "ma", m, ip)
@@ -195,6 +201,9 @@ ValueNext ==
     \/ \E n \in Names, ip \in BOOLEAN : InvertAct(n, ip)
     \/ \E n \in Names : GetCopy(n) \/ Wrap(n)
     \/ \E n \in Names, t1 \in 0 .. R, t2 \in 0 .. R : SetItem(n, t1, t2) \/ GetItem(n, t1, t2)
+
+\* the further operand kinds, one operation deep
+KindNext == \E op \in Ops, n \in Names, k \in MoreKinds, ip \in BOOLEAN : Bin(op, n, k, "-", ip)
 
 SpaceNext ==
     \/ \E op \in Ops, ip \in BOOLEAN : Bin(op, "X", "ma", "Y", ip)
